@@ -345,12 +345,12 @@ def run(spec, mon):
         RB.check_identity(mon, obs, case, prefix="census")
         if i == 0:
             mon.sample({"features": RB.case_texts(case), "args": args, "census": census(lab, obs.features)[0]})
-    for i in range(1 if tier == "quick" else 25):
+    for i in range(2 if tier == "quick" else 25):
         case = RB.gen_case(rng, gen={"outcomes": [o for o in OUTCOMES if o not in ("ki",)], "p_nonpass": 0.35, "max_features": 2}, p_stop=0.1, p_dry=0.0)
-        subprocess_summary(mon, rng, case)
+        subprocess_summary(mon, rng, case, which=("command_line", "configuration_file", "off")[(spec["shard"] + i) % 3])
 
 
-def subprocess_summary(mon, rng, case):
+def subprocess_summary(mon, rng, case, which="command_line"):
     """`python -m behave` with the reporters the Configuration builds itself (--junit on / off): the summary printed at the end
     counts the scenarios under the statuses the reference model gives them."""
     import re
@@ -359,12 +359,12 @@ def subprocess_summary(mon, rng, case):
     pred = runmodel.predict(case["program"], case["cfg"])
     if pred.aborted or any(len(v) != 1 for v in pred.scen_status.values()):
         return
-    junit = rng.random() < 0.6
+    junit = which != "off"
     extra = ["--junit", "--junit-directory", "reports-junit"] if junit else []
     how = "command_line" if junit else "off"
     proj = Project(case["program"], {})
     try:
-        if junit and rng.random() < 0.4:
+        if which == "configuration_file":
             with open(os.path.join(proj.root, "behave.ini"), "w") as fh:
                 fh.write("[behave]\njunit = true\njunit_directory = reports-junit\n")
             extra, how = [], "configuration_file"
